@@ -685,3 +685,18 @@ pub fn cycle_model(world: &mut World<'_>, mem: &Mem, cyc: &ACycle, labels: &mut 
         "server": server,
         "shipped": cyc.shipped.as_ref().map(|r| r.model()).unwrap_or(Value::Null)})
 }
+
+/// Runs a history of update cycles on one datastore directory against the real client and returns
+/// (model input cycles, observations). Every cycle installs its own server state.
+pub async fn run_history(world: &mut World<'_>, cycles: &[ACycle], cap: usize) -> (Vec<Value>, Vec<Value>) {
+    let mem = Mem::new(cap);
+    let ds = tempfile::tempdir().expect("datastore dir");
+    let mut labels = HashMap::new();
+    let mut models = Vec::new();
+    let mut obs = Vec::new();
+    for c in cycles {
+        models.push(cycle_model(world, &mem, c, &mut labels));
+        obs.push(run_cycle(world, &mem, c, ds.path(), &labels).await.obs);
+    }
+    (models, obs)
+}
